@@ -92,6 +92,11 @@ BREAK = {
         (['C08.c'], BN, "        for blk in self.blocks:\n            if not blk.check_crc():\n                fail.add(blk.block_num)", "        for blk in self.blocks[:1]:\n            if not blk.check_crc():\n                fail.add(blk.block_num)"),
     ],
     'C09': [
+        (['C09.a'], S, "        # the buffer has drained only now, after the last handler returned\n        self._check_sess_term()\n", ""),
+        (['C09.c'], S, "        if self._in_term:\n            # it could never be started, and would keep the session from closing\n            raise RuntimeError('Cannot send a bundle in terminating state')\n", ""),
+        (['C09.c'], S, "                'connection closed'\n            )\n", "                'success'\n            )\n"),
+        (['C09.e'], S, "        if not self._in_sess:\n            # no session to terminate gracefully yet\n            self.close()\n            return\n", ""),
+        (['C09.e'], S, "        if self._in_term:\n            # termination is already in progress\n            return\n", ""),
         (['C09.d'], S, "            if self._in_term:\n                # no new transfer may start after SESS_TERM\n                return False\n", ""),
         (['C09.f'], 'tcpcl/agent.py', "        path = hdl.object_path\n        self.connection_closed(path)\n", "        path = hdl.object_path\n"),
         (['C09.a'], S, "            self._rx_teardown()\n\n            self._check_sess_term()", "            self._rx_teardown()\n"),
@@ -127,10 +132,13 @@ BREAK = {
         (['C13.f'], UA, "        self._rx_queue[item.transfer_id] = item\n        self.recv_bundle_finished(str(item.transfer_id), item.total_length, metadata)", "        self.recv_bundle_finished(str(item.transfer_id), item.total_length, metadata)\n        self._rx_queue[item.transfer_id] = item"),
     ],
     'C14': [
+        (['C14.b'], S, "                val = dbus.UInt64(val)", "                val = dbus.UInt64(min(2 ** 31 - 1, val))"),
+        (['C14.d'], S, "        if not self._in_term:\n            # once terminating only what is heard from the peer defers\n            # the idle close, not the keepalives this side keeps sending\n            self._idle_reset()", "        self._idle_reset()"),
+        (['C14.d'], S, "        # the last time this side defers the idle close by itself\n        self._idle_reset()\n", ""),
         (['C14.a'], S, "        self._keepalive_time = min(self._sessinit_this.keepalive,\n                                   self._sessinit_peer.keepalive)", "        self._keepalive_time = max(self._sessinit_this.keepalive,\n                                   self._sessinit_peer.keepalive)"),
         (['C14.a'], S, "                int(self._idle_time * 1e3), self._idle_timeout)", "                int(self._idle_time), self._idle_timeout)"),
         (['C14.b'], S, "            peer_segment_mru=self._sessinit_peer.segment_mru,", "            peer_segment_mru=self._sessinit_this.segment_mru,"),
-        (['C14.d'], S, "        self.__tx_buf += pkt_data\n        self.send_ready()\n\n        self._keepalive_reset()\n        self._idle_reset()", "        self.__tx_buf += pkt_data\n        self.send_ready()\n\n        self._keepalive_reset()"),
+        (['C14.d'], S, "        self._keepalive_reset()\n        if not self._in_term:\n            # once terminating only what is heard from the peer defers\n            # the idle close, not the keepalives this side keeps sending\n            self._idle_reset()", "        self._keepalive_reset()"),
     ],
     'C15': [
         (['C15.a'], S, "        self._tls_attempt = (this_can_tls and peer_can_tls)", "        self._tls_attempt = (this_can_tls or peer_can_tls)"),
@@ -155,7 +163,8 @@ BREAK = {
     'C18': [
         (['C18.e'], 'bp/cla.py', "conn_iface.connect_to_signal('session_state_changed', handle_state_change)", "conn_iface.connect_to_signal('session_state', handle_state_change)"),
         (['C18.a'], S, "            self.recv_bundle_finished(\n                str(item.transfer_id), recv_length, 'success')", "            self.recv_bundle_finished(\n                item.transfer_id, recv_length, 'success')"),
-        (['C18.c'], S, "            self._tx_map.pop(item.transfer_id, None)\n", ""),
+        (['C18.c'], S, "            self._tx_map.pop(item.transfer_id, None)\n            self._logger.warning('Terminating and ignoring", "            self._logger.warning('Terminating and ignoring"),
+        (['C18.c'], S, "            self._tx_map.pop(item.transfer_id, None)\n            self._logger.warning('Closing and ignoring", "            self._logger.warning('Closing and ignoring"),
         (['C18.d'], S, "            and self._tx_tmp is None\n", ""),
         (['C18.a'], UA, "            node_id = str(extmap.get(ExtensionKey.SENDER_NODEID, ''))", "            node_id = extmap.get(ExtensionKey.SENDER_NODEID, '')"),
     ],
